@@ -177,6 +177,18 @@ const PAIRS: &[(&str, &str, &str, &str)] = &[
     ("cross-colour-space", "packing an HSL colour", "let _r = hsl_u.to_rgb_u32();", "let _r = hsl_u.to_rgb().to_rgb_u32();"),
     ("cross-colour-space", "packing HSLA as ARGB", "let _r = hsla(1u8, 2, 3, 4).to_argb_u32();", "let _r = hsla(1u8, 2, 3, 4).to_rgba().to_argb_u32();"),
     ("cross-colour-space", "fragment colour in HSLA", "let _f = |_f: Frag<()>| -> Color4 { hsla(1u8, 2, 3, 4) };", "let _f = |_f: Frag<()>| -> Color4 { hsla(1u8, 2, 3, 4).to_rgba() };"),
+    ("cross-colour-space", "Affine::add 8-bit colour + difference taken in another space", "let _r = Affine::add(&hsl_u, &Affine::sub(&rgb_u, &rgb_u));", "let _r = Affine::add(&rgb_u, &Affine::sub(&rgb_u, &rgb_u));"),
+    ("cross-colour-space", "Affine::sub 8-bit RGB - HSL", "let _r = Affine::sub(&rgb_u, &hsl_u);", "let _r = Affine::sub(&rgb_u, &hsl_u.to_rgb());"),
+    ("cross-colour-space", "difference of 8-bit colours keeps its space", "let _r: Vector<[i32; 3], Hsl> = Affine::sub(&rgb_u, &rgb_u);", "let _r: Vector<[i32; 3], Rgb> = Affine::sub(&rgb_u, &rgb_u);"),
+    ("cross-colour-space", "Affine::add float colour + difference taken in another space", "let _r = Affine::add(&hsl_f, &Affine::sub(&rgb_f, &rgb_f));", "let _r = Affine::add(&rgb_f, &Affine::sub(&rgb_f, &rgb_f));"),
+    ("cross-colour-space", "scaled difference added in another space", "let _r = Affine::add(&hsl_f, &Linear::mul(&Affine::sub(&rgb_f, &rgb_f), 0.5));", "let _r = Affine::add(&rgb_f, &Linear::mul(&Affine::sub(&rgb_f, &rgb_f), 0.5));"),
+    ("cross-colour-space", "8-bit lerp RGB with HSL", "let _r = rgb_f.to_color3().to_hsl().to_rgb_u32();", "let _r = rgb_f.to_color3().to_hsl().to_rgb().to_rgb_u32();"),
+    ("cross-basis", "difference vector of points added in another basis", "let _r = p3b + (p3a2 - p3a);", "let _r = p3a + (p3a2 - p3a);"),
+    ("cross-basis", "Mat3x3::apply_pt result basis", "let _r = m2_ab.apply_pt(&p2a) - p2a;", "let _r = m2_ab.apply_pt(&p2a) - p2b;"),
+    ("cross-basis", "Mat3x3::apply result basis", "let _r = m2_ab.apply(&v2a) + v2a;", "let _r = m2_ab.apply(&v2a) + v2b;"),
+    ("cross-basis", "Mat4x4::apply_pt result basis", "let _r = m_ab.apply_pt(&p3a) - p3a;", "let _r = m_ab.apply_pt(&p3a) - p3b;"),
+    ("wrong-source-space", "Mat3x3::apply_pt twice", "let _r = m2_ab.apply_pt(&m2_ab.apply_pt(&p2a));", "let _r = m2_bc.apply_pt(&m2_ab.apply_pt(&p2a));"),
+    ("wrong-source-space", "RealToProj composite applied", "let _r = q_b.compose(&m_ab).apply(&p3b);", "let _r = q_b.compose(&m_ab).apply(&p3a);"),
     ("mixed-dimension", "colour with alpha mixed with colour without", "let _r = rgb_f.lerp(&rgba(0.1f32, 0.2, 0.3, 1.0), 0.5);", "let _r = rgb_f.lerp(&rgba(0.1f32, 0.2, 0.3, 1.0).to_rgb(), 0.5);"),
     // ---- render(): the vertex shader must output clip-space (projective) positions
     (
